@@ -42,8 +42,8 @@ impl From<BoxError> for FErr {
 type Crf = ChunkedReadFile<Bytes, FErr>;
 
 fn tmp_root() -> PathBuf {
-    let p = PathBuf::from("/verif/target/tmp");
-    std::fs::create_dir_all(&p).expect("create /verif/target/tmp");
+    let p = PathBuf::from(format!("{}/target/tmp", crate::report::scratch_root()));
+    std::fs::create_dir_all(&p).expect("create <scratch>/target/tmp");
     p
 }
 
@@ -424,8 +424,9 @@ pub fn run_c18(run: &mut Run) -> Stats {
             let mut deltas = deltas;
             deltas.sort();
             deltas.dedup();
+            // around a recent time and around the epoch itself (offsets mirrored about 1970-01-01)
+            for base_t in [std::time::UNIX_EPOCH + std::time::Duration::new(1_700_000_000, 123_456_789), std::time::UNIX_EPOCH] {
             let mut tags: Vec<(i128, Vec<u8>)> = Vec::new();
-            let base_t = std::time::UNIX_EPOCH + std::time::Duration::new(1_700_000_000, 123_456_789);
             for d in std::iter::once(0i128).chain(deltas.iter().copied()).chain(deltas.iter().map(|d| -*d)) {
                 let t = if d >= 0 { base_t + std::time::Duration::from_nanos(d as u64) } else { base_t - std::time::Duration::from_nanos((-d) as u64) };
                 let w = std::fs::OpenOptions::new().write(true).open(&path).unwrap();
@@ -443,11 +444,21 @@ pub fn run_c18(run: &mut Run) -> Stats {
                 }
             }
             st.count("mtime_deltas_checked", tags.len() as u64);
+            }
             std::fs::OpenOptions::new().write(true).open(&path).unwrap().set_modified(mtime0).unwrap();
         }
         // (e) modification times before the epoch and far in the future: validators must still
         // be produced (no panic), valid, and serve() must answer
-        for (what, t) in [("1969", std::time::UNIX_EPOCH - std::time::Duration::from_secs(86_400)), ("1901", std::time::UNIX_EPOCH - std::time::Duration::new(2_177_452_800, 500_000_000)), ("year-9999", std::time::UNIX_EPOCH + std::time::Duration::from_secs(253_402_300_799))] {
+        let now = std::time::SystemTime::now();
+        for (what, t) in [
+            ("1969", std::time::UNIX_EPOCH - std::time::Duration::from_secs(86_400)),
+            ("1901", std::time::UNIX_EPOCH - std::time::Duration::new(2_177_452_800, 500_000_000)),
+            ("half-a-second-before-1970", std::time::UNIX_EPOCH - std::time::Duration::new(0, 500_000_000)),
+            ("year-9999", std::time::UNIX_EPOCH + std::time::Duration::from_secs(253_402_300_799)),
+            ("year-2100", std::time::UNIX_EPOCH + std::time::Duration::new(4_102_444_800, 1)),
+            ("tomorrow", now + std::time::Duration::from_secs(86_400)),
+            ("in-ten-minutes", now + std::time::Duration::new(600, 7)),
+        ] {
             let w = std::fs::OpenOptions::new().write(true).open(&path).unwrap();
             if w.set_modified(t).is_err() || std::fs::metadata(&path).unwrap().modified().unwrap() != t {
                 st.count(&format!("mtime_{what}_not_kept_by_fs"), 1);
@@ -459,13 +470,20 @@ pub fn run_c18(run: &mut Run) -> Stats {
                 let c = Crf::new(File::open(&path).unwrap(), HeaderMap::new()).unwrap();
                 let e = c.etag().map(|v| v.as_bytes().to_vec());
                 let lm = c.last_modified();
+                // a second instance on the untouched file, a little later
+                std::thread::sleep(std::time::Duration::from_millis(2));
+                let c2 = Crf::new(File::open(&path).unwrap(), HeaderMap::new()).unwrap();
+                let same = c2.etag().map(|v| v.as_bytes().to_vec()) == e && c2.last_modified() == lm && c2.len() == c.len();
                 let req = http::Request::builder().method("GET").body(()).unwrap();
                 let status = http_serve::serve(c, &req).status().as_u16();
-                (e, lm, status)
+                (e, lm, status, same)
             }));
             match r {
                 Err(p) => fs.push(fnd(&["C18"], format!("validators-panic:{what}"), format!("file with modification time {what}: etag()/last_modified()/serve() panicked: {}", panic_msg(p)))),
-                Ok((e, lm, status)) => {
+                Ok((e, lm, status, same)) => {
+                    if !same {
+                        fs.push(fnd(&["C18"], "etag-unstable", format!("mtime {what}: two instances opened on the unmodified file disagree about etag / last_modified / len")));
+                    }
                     if !e.as_ref().map(|e| etag_ok(e)).unwrap_or(false) {
                         fs.push(fnd(&["C18"], "etag-syntax", format!("mtime {what}: etag {:?}", e.map(|e| String::from_utf8_lossy(&e).to_string()))));
                     } else if e == e0 {
@@ -611,6 +629,34 @@ fn build_tree() -> Tree {
     w("a...gz", "a dot dot gz");
     w("sub/secret", "inner secret");
     w("secret.gz", "secret gz inside");
+    // a request path that itself ends in .gz, with and without a sibling of its own
+    w("a.gz.gz", "gz of a.gz");
+    w("sub/b.tar.gz", "tarball");
+    w("sub/b.tar.gz.gz", "gz of tarball");
+    // empty files on either side
+    w("empty", "");
+    w("empty.gz", "");
+    w("e2", "");
+    w("e2.gz", "gz of e2");
+    // names with a space, a backslash, a percent escape, non-ASCII letters
+    w("with space", "sp");
+    w("with space.gz", "sp gz");
+    w("caf\u{e9}", "utf8 name");
+    w("caf\u{e9}.gz", "utf8 name gz");
+    w("..\\secret", "backslash is an ordinary byte");
+    w("%2e%2e", "percent is an ordinary byte");
+    // modification times in both orders and equal (the rule has no timestamp condition)
+    let set = |p: &str, secs: u64| {
+        std::fs::OpenOptions::new().write(true).open(base.join(p)).unwrap().set_modified(std::time::UNIX_EPOCH + std::time::Duration::from_secs(secs)).unwrap();
+    };
+    set("a", 1_600_000_000);
+    set("a.gz", 946_684_800); // .gz older than the plain file
+    set("sub/sub/a", 946_684_800);
+    set("sub/sub/a.gz", 1_600_000_000); // .gz newer
+    set("e2", 1_500_000_000);
+    set("e2.gz", 1_500_000_000); // equal
+    set("with space", 1_600_000_001);
+    set("with space.gz", 1_600_000_000); // older by one second
     // long names: NAME_MAX is 255, so `<name>.gz` cannot exist for names of 253..255 bytes
     for n in [250usize, 251, 252, 253, 255] {
         w(&"n".repeat(n), "long name");
@@ -649,7 +695,7 @@ fn tree_secret_abs() -> String {
 
 fn show_path(p: &str) -> String {
     if p.len() > 80 {
-        format!("{:?}...({} bytes)", &p[..40], p.len())
+        format!("{:?}...({} bytes)", p.chars().take(40).collect::<String>(), p.len())
     } else {
         format!("{p:?}")
     }
@@ -662,7 +708,7 @@ fn lexical_reject(p: &str) -> bool {
 pub fn run_c19(run: &mut Run) -> Stats {
     let tier = run.tier;
     let kmax = tier.pick(3, 5);
-    run.rule = format!("every path of 1..{kmax} segments over {{a, sub, .., ., ..., ..a, a.., '', secret}} joined by '/', with {{no, leading, trailing, both}} extra slash, with a NUL inserted at every byte position (and none), x Accept-Encoding in {{absent, gzip, gzip;q=0, identity;q=1 gzip;q=0.5, *, br gzip;q=0.001}} x auto_gzip on/off, against a tree with plain files, .gz siblings, a .gz directory, names made of dots, and a `secret` file outside the base. Oracle: lexical rule (leading '/', NUL, '..' segment) => Err(InvalidInput); otherwise (device, inode) of the returned node == std::fs::metadata(base/path) -- or of base/path.gz when auto_gzip && the independent evaluator prefers gzip && that sibling exists and is not a directory -- and the same error kind when std fails; the inode must lie inside the base; encoding()/add_encoding_headers report gzip exactly when substituted and Vary exactly when auto_gzip. non-trivial = distinct (path, Accept-Encoding, auto_gzip)");
+    run.rule = format!("every path of 1..{kmax} segments over {{a, sub, .., ., ..., ..a, a.., '', secret}} joined by '/', with {{no, leading, trailing, both}} extra slash, with a NUL inserted at every byte position (and none), x Accept-Encoding in {{absent, gzip, gzip;q=0, identity;q=1 gzip;q=0.5, *, br gzip;q=0.001}} x auto_gzip on/off, plus every file of the tree by name (names ending in .gz with and without a .gz.gz sibling, empty files, names with a space / backslash / percent escape / non-ASCII letter), against a tree with plain files, .gz siblings older than, newer than and as old as their plain file, a .gz directory, names made of dots, and a `secret` file outside the base. Oracle: lexical rule (leading '/', NUL, '..' segment) => Err(InvalidInput); otherwise (device, inode) of the returned node == std::fs::metadata(base/path) -- or of base/path.gz when auto_gzip && the independent evaluator prefers gzip && that sibling exists and is not a directory -- and the same error kind when std fails; the inode must lie inside the base; encoding()/add_encoding_headers report gzip exactly when substituted and Vary exactly when auto_gzip. non-trivial = distinct (path, Accept-Encoding, auto_gzip)");
     run.bounds = json!({"max_segments": kmax, "segments": SEGS, "accept_encodings": AES.len()});
     run.assumptions.push("std::fs on the sandbox file system is the reference; no symlinks in the tree (the crate documents that it does not check them)".into());
     let tree = build_tree();
@@ -694,6 +740,10 @@ pub fn run_c19(run: &mut Run) -> Stats {
     for tail in ["abc", "abc.gz", "missing", "", ".."] {
         paths.push(format!("{deep}/{tail}"));
     }
+    // every file of the tree by name (also names ending in .gz), plus a few names that do not exist
+    for extra in ["a.gz", "a.gz.gz", "a.gz.gz.gz", "sub/b.tar.gz", "sub/b.tar.gz.gz", "sub/b.tar", "empty", "empty.gz", "e2", "e2.gz", "with space", "with space.gz", "caf\u{e9}", "caf\u{e9}.gz", "caf\u{e8}", "..\\secret", "a\\..\\a", "%2e%2e", "%2e%2e/secret", "secret.gz", "a...gz", "sub/a.gz", "sub/a.gz/", "sub/sub/a.gz", "a.GZ", "a.gz/", ".gz", "sub/.gz"] {
+        paths.push(extra.to_string());
+    }
     // the absolute path of the outside secret, smuggled behind prefixes a sloppy normaliser strips
     let abs = tree_secret_abs().trim_start_matches('/').to_string();
     for pre in [".//", "./", "././/", "a/..//", "sub/.//", ".///"] {
@@ -718,6 +768,9 @@ pub fn run_c19(run: &mut Run) -> Stats {
             let mut variants: Vec<String> = vec![p0.clone()];
             let nul_step = if p0.len() > 40 { 97 } else { 1 };
             for pos in (0..=p0.len()).step_by(nul_step) {
+                if !p0.is_char_boundary(pos) {
+                    continue;
+                }
                 let mut v = p0.clone();
                 v.insert(pos, '\0');
                 variants.push(v);
